@@ -173,7 +173,9 @@ func permutations(n int, f func(p []int)) {
 }
 
 func c19Sort(run *evid.Run, es []iface.IPFSLogEntry, src string) {
-	for _, cf := range []cmpFn{{"hash", sorting.SortByEntryHash}, {"revhash", hx.RevHash}} {
+	// "hash+nozeroes" is what a log installs: it REFUSES (returns an error for) a pair that compares equal - which
+	// happens when a list holds the same entry twice; the list must come out sorted all the same
+	for _, cf := range []cmpFn{{"hash", sorting.SortByEntryHash}, {"revhash", hx.RevHash}, {"hash+nozeroes", sorting.NoZeroes(sorting.SortByEntryHash)}} {
 		for _, rev := range []bool{false, true} {
 			var ref []string
 			permutations(len(es), func(p []int) {
@@ -199,7 +201,11 @@ func c19Sort(run *evid.Run, es []iface.IPFSLogEntry, src string) {
 					}
 				}
 				for i := 1; i < len(in); i++ {
-					c, _ := cf.f(in[i-1], in[i])
+					chk := cf.f
+					if cf.name == "hash+nozeroes" {
+						chk = sorting.SortByEntryHash
+					}
+					c, _ := chk(in[i-1], in[i])
 					if (!rev && c > 0) || (rev && c < 0) {
 						run.Violate("C19/sort-unsorted", det("order", cf.name, "reverse", rev), map[string]any{"source": src, "output": got}, "Sort output is not sorted")
 						return
@@ -350,6 +356,49 @@ func CheckC19(run *evid.Run) {
 		c19Sort(run, es, "same-digest identifiers")
 	}
 	run.NonTrivial("pair/same-digest")
+	// lists that hold the same entry twice (a second object with the same fields, or the very same object)
+	{
+		mk := func(t int, h string) *entry.Entry {
+			return &entry.Entry{Hash: foreignCid(h), Clock: entry.NewLamportClock([]byte{0x01}, t), LogID: "x", Payload: []byte("dup")}
+		}
+		e1, e2, e4, e5, e6 := mk(1, "d1"), mk(2, "d2"), mk(4, "d4"), mk(5, "d5"), mk(6, "d6")
+		twin := mk(4, "d4")
+		for _, es := range [][]iface.IPFSLogEntry{{e6, e5, e4, twin, e2, e1}, {e4, e4, e2, e1, e6}, {twin, e1, e4, e6, twin}, {e2, e2, e2, e1}} {
+			c19Sort(run, es, "list holding the same entry twice")
+			run.Count("sorts_of_lists_with_duplicates", 1)
+		}
+		run.NonTrivial("sort/duplicates")
+	}
+	// entries connected by links whose clocks CONTRADICT the link (a stale or hostile writer signs a child with a
+	// clock at or behind its parent's): the orderings are functions of clocks and hashes only
+	{
+		mk := func(t int, id byte, h string, next ...cid.Cid) *entry.Entry {
+			return &entry.Entry{Hash: foreignCid(h), Clock: entry.NewLamportClock([]byte{id}, t), LogID: "x", Payload: []byte("linked"), Next: next}
+		}
+		a1 := mk(1, 1, "l-a1")
+		a2 := mk(2, 1, "l-a2", a1.Hash)
+		a3 := mk(3, 1, "l-a3", a2.Hash)
+		stale := mk(2, 2, "l-stale", a3.Hash)          // child with a smaller time than its parent
+		same := mk(3, 2, "l-same", a3.Hash)            // child with its parent's time
+		ahead := mk(1, 0, "l-ahead", a2.Hash, a3.Hash) // merge entry behind both parents
+		honest := mk(4, 2, "l-honest", a3.Hash)
+		linked := []*entry.Entry{a1, a2, a3, stale, same, ahead, honest}
+		for _, a := range linked {
+			for _, b := range linked {
+				c19Pair(run, a, b, "entries linked against their clocks")
+				for _, c := range linked {
+					c19Triple(run, a, b, c, "entries linked against their clocks")
+				}
+			}
+		}
+		var es []iface.IPFSLogEntry
+		for _, e := range linked[:6] {
+			es = append(es, e)
+		}
+		c19Sort(run, es, "entries linked against their clocks")
+		run.Count("linked_pairs", len(linked)*len(linked))
+		run.NonTrivial("pair/linked-against-clocks")
+	}
 	run.Eval(n*n + n*n*n)
 	run.Exhaustive = true
 	run.Extra["exhaustive_scope"] = "pair and triple axioms over the stated 108-entry domain are enumerated completely; Sort permutations are complete per sampled multiset; real-history draws are sampled"
